@@ -58,3 +58,5 @@ pub uninterp spec fn pmi(p: int) -> int;
 pub uninterp spec fn pdim(p: int) -> int;
 #[verifier::external_body] pub proof fn bx_perm(p: int)
     ensures nr(pm(p)) == pdim(p), nc(pm(p)) == pdim(p), nr(pmi(p)) == pdim(p), nc(pmi(p)) == pdim(p), mmul(pm(p), pmi(p)) == mid(pdim(p)), mmul(pmi(p), pm(p)) == mid(pdim(p)) {}
+#[verifier::external_body] pub proof fn bx_add_inv(x: int, y: int) requires madd(x, y) == mzero(nr(x), nc(x)) ensures x == mneg(y) {}
+#[verifier::external_body] pub proof fn bx_neg_neg(x: int) ensures mneg(mneg(x)) == x {}
